@@ -1363,11 +1363,12 @@ def rule_handover(chk, prog, seen):
                 rb = {}
                 for r_ in resets:
                     rb.setdefault(r_.bb, []).append(r_.pos)
-                # the search starts at the load: taking the block out of the field before the call is as good
-                ok = any(pos > v.pos for pos in rb.get(v.bb, []))
+                # taking the block out of the field between the load and the call is as good
+                ok = any(f.inst_dominates(v, r_) and f.inst_dominates(r_, c) for r_ in resets) or \
+                    any(pos > c.pos for pos in rb.get(c.bb, []))
                 bad = None
                 if not ok:
-                    seenb, stack = set(), list(v.bb.succs)
+                    seenb, stack = set(), list(c.bb.succs)
                     while stack:
                         b = stack.pop()
                         if b in seenb:
@@ -1379,7 +1380,7 @@ def rule_handover(chk, prog, seen):
                             bad = b.term
                             break
                         stack.extend(b.succs)
-                    ok = bad is None and bool(v.bb.succs)
+                    ok = bad is None and bool(c.bb.succs)
                 if ok:
                     chk.ok("K8-handover", inst, c, "the field is overwritten on every path after the block was handed over")
                 else:
@@ -1399,7 +1400,7 @@ def run(chk):
         "to) before it is dereferenced, and realloc never overwrites the only copy unchecked; packers: every exit after a "
         "successful sqfs_writer_init passes sqfs_writer_cleanup, EXIT_SUCCESS only from the success edge of "
         "sqfs_writer_finish, cleanup unlinks on failure; all four mains: exit status 0 unreachable from every failure "
-        "edge; submit failures propagate. Further rules: E4 (an error result obtained in a loop is examined before the next iteration replaces it), E5 (results of tri-state functions are not collapsed to ==0), E6 (an error edge does not return a regular value), E9 (every failure of a fault source or of a libsquashfs/libutil call in tool-level code is reported on stderr there or on every way up to main's exit: bottom-up summary of functions that hand a failure on unreported, path enumeration from the call under the assumption that it failed), E8 (a failing call in a loop whose result is only compared with 0 does not lead round the loop to the next attempt without a trace), E7 (no path from an allocation-failure edge or a negative-result edge returns 0 / a status variable pinned to 0: path enumeration with phis resolved by edge and loads by the last store), init-unlinks and chdir-undone under K1-cleanup. K6-capagree: where an allocation failure is survived by asking for less, the capacity recorded is the one the allocation that succeeded was sized for; E7 does not report a failure that a second allocation on the path made good E7 also takes the NULL answer of the project's own constructors (functions whose every NULL return lies behind a tested call result) as a failure edge.")
+        "edge; submit failures propagate. Further rules: E4 (an error result obtained in a loop is examined before the next iteration replaces it), E5 (results of tri-state functions are not collapsed to ==0), E6 (an error edge does not return a regular value), E9 (every failure of a fault source or of a libsquashfs/libutil call in tool-level code is reported on stderr there or on every way up to main's exit: bottom-up summary of functions that hand a failure on unreported, path enumeration from the call under the assumption that it failed), E8 (a failing call in a loop whose result is only compared with 0 does not lead round the loop to the next attempt without a trace), E7 (no path from an allocation-failure edge or a negative-result edge returns 0 / a status variable pinned to 0: path enumeration with phis resolved by edge and loads by the last store), init-unlinks and chdir-undone under K1-cleanup. K6-capagree: where an allocation failure is survived by asking for less, the capacity recorded is the one the allocation that succeeded was sized for; E7 does not report a failure that a second allocation on the path made good. E7 also takes the NULL answer of the project's own constructors (functions whose every NULL return lies behind a tested call result) as a failure edge.")
     chk.assumptions = ["that the handling of a consumed error is *right* is not decided, only that the error reaches a decision"]
     seen1, seen2, seen3, seen4, seen5, seen6, seen7 = set(), set(), set(), set(), set(), set(), set()
     seen8, seen9, seen10 = set(), set(), set()
